@@ -51,7 +51,8 @@ def demo_info(d):
     m = re.search(r"cp\s+\S*_test\.go\s+(\S+)", run)
     if m:
         dest = m.group(1)
-        dest = re.sub(r"^/tmp/seed2?/C\d+/", "", dest)
+        dest = re.sub(r"^/tmp/seed[23]?/C\d+/", "", dest)
+        dest = re.sub(r"^<[a-z ]+>/", "", dest)
     mm = re.search(r"mkdir -p (\S+)", run)
     rm = re.search(r"-run\s+'?\"?([^'\"\s]+)", run)
     pkgm = re.search(r"go test[^\n]*?(\./\S+)\s*$", run, re.M)
@@ -61,9 +62,9 @@ def demo_info(d):
 def main():
     only = [a for a in sys.argv[1:] if not a.startswith("--")]
     os.makedirs("/verif/seeded", exist_ok=True)
-    for d in sorted(glob.glob("/tmp/seed/out/C*/m*")) + sorted(glob.glob("/tmp/seed2/out/C*/m*")):
+    for d in sorted(glob.glob("/tmp/seed/out/C*/m[0-9]")) + sorted(glob.glob("/tmp/seed2/out/C*/m[0-9]")) + sorted(glob.glob("/tmp/seed3/out/C*/m[0-9]")):
         pid, mn = d.split("/")[-2], d.split("/")[-1]
-        name = f"{pid}-{mn}" if d.startswith("/tmp/seed/") else f"{pid}-r2{mn}"
+        name = f"{pid}-{mn}" if d.startswith("/tmp/seed/") else (f"{pid}-r2{mn}" if d.startswith("/tmp/seed2/") else f"{pid}-r3{mn}")
         if only and name not in only and pid not in only:
             continue
         try:
@@ -96,6 +97,23 @@ def main():
         # demo
         files, dest, mk, runre, pkg = demo_info(d)
         demo = {"files": [os.path.basename(f) for f in files]}
+        mains = glob.glob(os.path.join(d, "main.go"))
+        if not files and mains:
+            # stand-alone program: go run in a scratch package of the worktree, exit code 0 = good behaviour
+            demo["files"] = ["main.go"]
+            def runmain():
+                os.makedirs(os.path.join(WT, "zzseeddemo"), exist_ok=True)
+                shutil.copy(mains[0], os.path.join(WT, "zzseeddemo", "main.go"))
+                r = sh("go run ./zzseeddemo", cwd=WT, timeout=900)
+                shutil.rmtree(os.path.join(WT, "zzseeddemo"), ignore_errors=True)
+                return r
+            demo["cmd"] = "go run ./zzseeddemo (main.go copied there)"
+            rc1, out1 = runmain()
+            demo["fails_with_patch"] = rc1 != 0
+            sh(f"git apply -R {patch}", cwd=WT)
+            rc2, out2 = runmain()
+            demo["passes_without_patch"] = rc2 == 0
+            demo["tail_with_patch"] = out1[-600:]
         if files:
             def place(wt):
                 if mk:
@@ -136,7 +154,7 @@ def write(name, d, patch, res):
     out = f"/verif/seeded/{name}"
     os.makedirs(out, exist_ok=True)
     shutil.copy(patch, os.path.join(out, "patch.diff"))
-    for f in glob.glob(os.path.join(d, "*_test.go")) + glob.glob(os.path.join(d, "RUN.md")):
+    for f in glob.glob(os.path.join(d, "*_test.go")) + glob.glob(os.path.join(d, "RUN.md")) + glob.glob(os.path.join(d, "main.go")):
         shutil.copy(f, out)
     meta = {}
     mp = os.path.join(d, "meta.json")
